@@ -148,6 +148,34 @@ def gen_cases(rng, tier):
         keep = [b.add(("wb", kk, bs)), b.add(("wb", kk, bs2)), b.add(("ba", bs)),
                 b.add(("cmp", word(kk), bs)), b.add(("pad", word(kk), bs + [0x55]))]
         addw(prune_to(b.ops, keep), {"gen": "word-struct"})
+
+    # --- sub-values of LARGE parents (a buffer of 130 .. 300 bytes) at every bit offset 0 .. 9, against the same element
+    # built by constructors: to_value / the raw byte iterator over a long shared buffer
+    pads = [ONE, BIT, word(1), Prod(BIT, word(1)), word(2), Prod(BIT, word(2)), Prod(word(1), word(2)),
+            Prod(BIT, Prod(word(1), word(2))), word(3), Prod(word(3), BIT)]
+    for j, pt in enumerate(pads):
+        for t in ([word(3), Sum(word(2), word(3)), Prod(word(3), BIT)] if tier == "quick" else
+                  [word(3), word(4), Sum(word(2), word(3)), Prod(word(3), BIT), Prod(BIT, word(4)), option(word(3))]):
+            b = Builder(rng)
+            v = vc.rand_value(rng, t)
+            v2 = vc.rand_value(rng, t)
+            bigt = word(10) if (j % 2 == 0 or tier == "quick") else word(11)
+            big = b.by_padded(bigt, vc.rand_value(rng, bigt), dirty=False)
+            keep = []
+            for vv in (v, v2):
+                i = b.by_constructors(t, vv)
+                keep.append(i)
+                q1 = b.add(("prod", i, big))
+                if pt == ONE:
+                    q2 = q1
+                else:
+                    pi = b.by_constructors(pt, vc.rand_value(rng, pt))
+                    q2 = b.add(("snd", b.add(("prod", pi, q1))))
+                keep.append(b.add(("fst", q2)))
+                # and behind the large component
+                q3 = b.add(("prod", big, i)) if pt == ONE else b.add(("prod", b.add(("prod", pi, big)), i))
+                keep.append(b.add(("snd", q3)))
+            add(prune_to(b.ops, keep), {"gen": "large-parent"})
     return cases
 
 
